@@ -11,9 +11,11 @@ package gostatsd
 //@   trusted
 //@   modifies everything
 //@   preserves lexer.Lexer, pool.MetricPool, statsd.DatagramParser
-// A completion callback of a flush (gostatsd.SendCallback) may do anything.
+// A completion callback of a flush (gostatsd.SendCallback) may do anything, except reach into the socket sender
+// that invokes it (ownership assumption).
 //@ functype SendCallback(errs)
 //@   modifies everything
+//@   preserves sender.Sender
 // EstimatedTags is a getter (assumed not to modify anything).
 //@ func (PipelineHandler).EstimatedTags
 //@   trusted
